@@ -102,6 +102,8 @@ def obligations(tier, seed):
             obs.append(ob_match(n1, n2, mm))
     if tier == 'quick':
         obs.append(ob_match(3, 2, 1))
+        obs.append(ob_match(3, 1, 2))      # one second-list point with three partners, maxmatch=2
+        obs.append(ob_match(2, 3, 2))
     return obs
 
 
